@@ -9,6 +9,9 @@ Definition bN (l : list N) : str := map ascii_of_N l.
 Definition ckey : str -> str -> str := hashed_octets.
 Definition cokey : str -> str := fun c => S_ "k" ++ c.
 
+Definition optstr_eqb (a b : option str) : bool :=
+  match a, b with Some x, Some y => str_eqb x y | None, None => true | _, _ => false end.
+
 Definition form_eqb (a b : form) : bool :=
   match a, b with
   | FLocal x, FLocal y => str_eqb x y
@@ -69,25 +72,33 @@ Definition state_spec_ok (bl : list blobrow) (msgs : list (list partrow)) : bool
                        end) rows.
 
 Definition fcode (f : option finding) : nat :=
-  match f with None => 0 | Some DedupEncoding => 1 | Some ConfigMismatch => 2 | Some ReadFault => 3 end.
+  match f with None => 0 | Some DedupEncoding => 1 end.
 
-(** one BODY[n] read: code = (impl or its GETs <> model) + 2 * (impl <> own) + 4 * class *)
-Definition read_code (w : world) (s3on : bool) (m k : nat) (o : oracle) (impl : str) (gets : list req) : nat :=
+(** the executable spec of one read (Spec/BlobSpec.v spec_read_ok, restated
+    here so that this file has no dependency on Spec) *)
+Definition obs_ok (own : str) (failed : bool) (res : option str) : bool :=
+  match res with Some s => str_eqb s own | None => failed end.
+
+(** one BODY[n] read; [impl] = [None] when FETCH answered NO.
+    code = (impl or its GETs <> model) + 2 * (impl violates the spec) + 4 * class *)
+Definition read_code (w : world) (s3on : bool) (m k : nat) (o : oracle) (impl : option str) (gets : list req) : nat :=
   match nth_error (w_msgs w) m with
   | Some rows =>
       match nth_error rows k with
       | Some row =>
           let out := fst (fst (read_part s3on w row o)) in
-          (if str_eqb impl out && list_eqb req_eqb (snd (read_part s3on w row o)) gets then 0 else 1) + (if str_eqb impl (r_own row) then 0 else 2)
-          + 4 * fcode (classify cokey s3on w row o)
+          (if optstr_eqb impl out && list_eqb req_eqb (snd (read_part s3on w row o)) gets then 0 else 1)
+          + (if obs_ok (r_own row) (read_failed s3on w row o) impl then 0 else 2)
+          + 4 * fcode (classify cokey w row)
       | None => 99
       end
   | None => 99
   end.
 
-(** one BODY[] read of a whole message: the model's contents of all rows, the
-    GETs it issues, compared with the observed leaf bodies ([None] = not
-    compared). [wr] = what the reconstruction writes for a content. *)
+(** one BODY[] read of a whole message: the model's contents of all rows (or
+    the error), the GETs it issues, compared with the observed leaf bodies
+    ([None] inside the list = not compared; [None] for the list = FETCH
+    answered NO). [written] = what the reconstruction writes for a content. *)
 Definition written (multi : bool) (c : str) : str :=
   if multi then (if has_suffix c crlf then c else c ++ crlf) else c.
 Fixpoint opt_cmp (multi : bool) (model : list str) (obs : list (option str)) : bool :=
@@ -97,23 +108,31 @@ Fixpoint opt_cmp (multi : bool) (model : list str) (obs : list (option str)) : b
   | _, _ => false
   end.
 Definition read_all_ok (w : world) (s3on : bool) (m : nat) (o : oracle) (multi : bool)
-           (obs : list (option str)) (gets : list req) : bool :=
+           (obs : option (list (option str))) (gets : list req) : bool :=
   match nth_error (w_msgs w) m with
   | Some rows => let '(cs, lg) := read_rows s3on w rows o in
-                 opt_cmp multi cs obs && list_eqb req_eqb lg gets
+                 (match cs, obs with
+                  | Some cs, Some obs => opt_cmp multi cs obs
+                  | None, None => true
+                  | _, _ => false
+                  end) && list_eqb req_eqb lg gets
   | None => false
   end.
-(** is some row of the message inside a finding class for this read? (the
-    oracle position of each row is threaded like read_rows does) *)
-Fixpoint rows_class (w : world) (s3on : bool) (rows : list partrow) (o : oracle) : bool :=
+(** is some row of the message inside a finding class? *)
+Definition msg_class (w : world) (m : nat) : bool :=
+  match nth_error (w_msgs w) m with
+  | Some rows => existsb (fun r => match classify cokey w r with Some _ => true | None => false end) rows
+  | None => false
+  end.
+(** spec on a whole-message read that answered NO: some row's backend must have failed *)
+Fixpoint rows_failed (w : world) (s3on : bool) (rows : list partrow) (o : oracle) : bool :=
   match rows with
   | [] => false
-  | r :: rest => let '(_, o', _) := read_part s3on w r o in
-                 (match classify cokey s3on w r o with Some _ => true | None => false end)
-                 || rows_class w s3on rest o'
+  | r :: rest => let '(c, o', _) := read_part s3on w r o in
+                 read_failed s3on w r o || (match c with Some _ => rows_failed w s3on rest o' | None => false end)
   end.
-Definition msg_class (w : world) (s3on : bool) (m : nat) (o : oracle) : bool :=
-  match nth_error (w_msgs w) m with Some rows => rows_class w s3on rows o | None => false end.
+Definition msg_failed (w : world) (s3on : bool) (m : nat) (o : oracle) : bool :=
+  match nth_error (w_msgs w) m with Some rows => rows_failed w s3on rows o | None => false end.
 
 Definition crun (evs : list event) : world := run ckey cokey evs.
 
@@ -123,6 +142,3 @@ Fixpoint worlds_from (w : world) (evs : list event) : list world :=
 Definition worlds (evs : list event) : list world := worlds_from w0 evs.
 Definition wat (ws : list world) (n : nat) : world := nth n ws w0.
 
-(** decode suite *)
-Definition optstr_eqb (a b : option str) : bool :=
-  match a, b with Some x, Some y => str_eqb x y | None, None => true | _, _ => false end.
